@@ -168,4 +168,17 @@ SPECS = {
         "real": ["lerax PPO.train/train_epoch/train_batch/ppo_loss, A2C.train, REINFORCE.train, AbstractBuffer.flatten_axes/batch_indices/gather/batches, RolloutBuffer.sample"],
         "stub": ["TagPolicy (one value-table entry per sample), tagged rollout built by the simulator"],
     },
+    "C18": {
+        "scenarios": [{"name": "storage", "runs": {"quick": 60, "thorough": 1000000}, "chunks": {"quick": 2, "thorough": 2}}],
+        "budget_s": {"quick": 600, "thorough": 1200},
+        "rule": "one evaluation = one seeded operation sequence (2..9 ops) over a simulated disk: save under a path spelling (str/Path, with/without "
+        ".eqx, no_suffix, nested missing directories, relative path with changed cwd), load with the same or mismatching constructor arguments, and "
+        "faults between/inside operations (torn write at a seeded byte, ENOSPC after k bytes via a patched open, pre-existing garbage / empty / "
+        "foreign-architecture file); non-trivial = a fault fired or a damaged/mismatching file was loaded; distinct = distinct (policy class x space "
+        "kind, fired event/fault kinds)",
+        "assumptions": ["payload bit flips are not injected (the statement promises no checksums)", "EACCES not injected (the sandbox runs as root)",
+                        "file stems contain no dot other than the suffix", "Python-float hyper-parameters compared after float32 rounding"],
+        "real": ["lerax Serializable.serialize/deserialize, MLPActorCriticPolicy / MLPQPolicy / MLPSACPolicy constructors and inference, equinox serialisation, the real file system (temp dir)"],
+        "stub": ["SimMDP variants only as carriers of action/observation spaces", "FaultyOpen (short write + ENOSPC)"],
+    },
 }
